@@ -139,6 +139,12 @@ class Verifier:
                     f"Binary operand b's type({instruction.b.ty}) "
                     + f"is not {instruction.ty}"
                 )
+        elif isinstance(instruction, ir.Unop):
+            if instruction.ty is not instruction.a.ty:
+                raise TypeError(
+                    f"Unary operand's type ({instruction.a.ty}) "
+                    + f"is not {instruction.ty}"
+                )
         elif isinstance(instruction, ir.Load):
             if instruction.address.ty is not ir.ptr:
                 raise TypeError(
